@@ -14,7 +14,7 @@ def run_stream(ck, coins, stream, release=False, check_ref=True, label=''):
     reqs = []
     for k, (tag, s) in enumerate(stream):
         # every script on one coin (rotating); templates, slot forms and no-op insertions on every coin (the verdict depends on the coin only through the version byte)
-        every = len(coins) <= 2 or ':' not in tag or tag.startswith(('nop:', 'ms_')) or (tag.startswith('slot:') and len(s) < 700)
+        every = len(coins) <= 2 or ':' not in tag or tag.startswith(('nop:', 'ms_', 'samehash', 'witness:fixed')) or (tag.startswith('slot:') and len(s) < 700)
         for j, coin in enumerate(coins):
             if every or j == k % len(coins): reqs.append((tag, s, coin))
     impl = run.hook_lines(ck.tools, 'script-eval', ['%02x %s' % (COINS[c]['ver'], s.hex() if s else '-') for _, s, c in reqs], release=release)
@@ -45,7 +45,7 @@ def run_stream(ck, coins, stream, release=False, check_ref=True, label=''):
 def explore(ck, coins=('bitcoin', 'testnet3')):
     r = ck.rng; quick = ck.tier == 'quick'
     ck.rule = ('in-process script-eval hook on a structured stream: every standard template with random payloads (P2PK keys valid, off-curve, hybrid, zero, text), every one-byte mutation / '
-               'truncation / extension of each, all 256 opcodes alone / leading / mid-script, witness version 0..17 x program length 1..42 (+ illegal lengths), m x n multisig grid 0..17 with wrong n, '
+               'truncation / extension of each, all 256 opcodes alone / leading / mid-script, witness version 0..17 x program length 1..42 (+ illegal lengths), m x n multisig grid 0..17 with wrong n, every non-push opcode in a multisig key slot, fixed witness programs (pay-to-anchor 51024e73 and neighbours, BIP173/350 vectors), the same hash under several templates back to back, '
                'non-pushnum n, up to 300 pushes, every push form in every template slot with lengths 0..65535 and every truncation incl. inside PUSHDATA length fields, no-op insertions at every '
                'position, OP_RETURN payload grid, scripts of 9999..12345 bytes, random token sequences and random bytes; compared per (script, coin): binary vs extracted model vs an independent python '
                'transcription of the reference rules, and every reported address is decoded (checksum, prefix, embedded hash). Non-trivial: reference class is not NotRecognised, or a one-step '
@@ -56,7 +56,7 @@ def explore(ck, coins=('bitcoin', 'testnet3')):
     # black-box subset through csvdump (address column), one chain per network
     cases = []
     for coin in coins[:2]:
-        outs = [(i, s) for i, (t, s) in enumerate(st[::max(1, len(st) // 150)]) if len(s) < 3000]
+        outs = [(i, s) for i, (t, s) in enumerate(st[::max(1, len(st) // 150)] + [x for x in st if x[0] in ('samehash', 'witness:fixed')]) if len(s) < 3000]
         txs = [coinbase_tx(1, [(1, P2PKH(b'\x01' * 20))])] + [Tx([(gen.rb(r, 32), 0, b'', 0)], [(v, s) for v, s in outs[k:k + 25]]) for k in range(0, len(outs), 25)]
         g = gen.GENESIS[coin] if coin in gen.GENESIS else Block(b'\x00' * 32, [coinbase_tx(0, [(1, b'\x51')])])
         b1 = Block(g.hash, txs)
